@@ -164,4 +164,60 @@ theorem mdpLP_sound_flat (joined : Bool) (S A : List Nat) (ddn : List DNode) (γ
   rw [← gform_eq_backup S A ddn γ h g R w s a wf.hgl (hbp s a hs ha)]
   exact mdpLP_sound joined S A γ h g R wf w hsol s a hs ha
 
+/-! ## same optimum -/
+
+theorem getD_range_map (u : Nat → Rat) (m k : Nat) (h : k < m) : ((List.range m).map u).getD k 0 = u k := by
+  simp [List.getD_eq_getElem?_getD, h]
+
+theorem dotN_replicate_zero (m : Nat) (x : List Rat) : dotN m (List.replicate m 0) x = 0 := by
+  simp only [dotN]
+  have : (fun i => (List.replicate m (0 : Rat)).getD i 0 * x.getD i 0) = fun _ => 0 := by
+    funext i
+    have h0 : (List.replicate m (0 : Rat)).getD i 0 = 0 := by
+      simp only [List.getD_eq_getElem?_getD, List.getElem?_replicate]
+      split <;> rfl
+    rw [h0]; ring
+  rw [this, sumTo_zero]
+
+/-- the flat objective of FactoredLP is the coordinate φ -/
+theorem flpObj_dot (C : List Basis) (addConst : Bool) (x : List Rat) :
+    dotN (flpNVars C addConst) (flpObj C addConst) x = x.getD (flpPhi C addConst) 0 := by
+  have h := dotN_append_one (List.replicate (C.length + (if addConst then 1 else 0)) 0) x 1
+  simp only [List.length_replicate] at h
+  simp only [flpNVars, flpObj, flpPhi]
+  rw [h, dotN_replicate_zero]; ring
+
+/-- **`factoredLP_same_optimum`**: if the driver's certificate check accepts `(x, y)` for the FLAT LP, then `x` extends to a
+    solution of the LP FactoredLP builds, and EVERY solution of that LP has `φ ≥` the certified optimum `x_φ`:
+    the two LPs have the same optimal value -/
+theorem factoredLP_same_optimum (S : List Nat) (hS : ∀ d ∈ S, 0 < d) (C b : List Basis) (addConst : Bool)
+    (hC : ∀ f ∈ C, BasisWF S f) (hb : ∀ f ∈ b, BasisWF S f) (hne : addConst = true → C ≠ []) (x y : List Rat)
+    (hopt : optimalPairB (flpNVars C addConst) (flpFlatRows S C b addConst) (flpObj C addConst) x y = true) :
+    (∃ u : Nat → Rat, (∀ k, k ≤ flpPhi C addConst → u k = x.getD k 0) ∧ ∀ r ∈ (flpGen S C b addConst).1, r.sat u) ∧
+    (∀ u : Nat → Rat, (∀ r ∈ (flpGen S C b addConst).1, r.sat u) → x.getD (flpPhi C addConst) 0 ≤ u (flpPhi C addConst)) := by
+  obtain ⟨hfeas, _, hmin⟩ := optimalPair_sound _ _ _ x y hopt
+  refine ⟨(factoredLP_same_feasible S hS C b addConst hC hb hne x).mpr hfeas, ?_⟩
+  intro u hu
+  have hx' := (factoredLP_same_feasible S hS C b addConst hC hb hne ((List.range (flpPhi C addConst + 1)).map u)).mp
+    ⟨u, fun k hk => (getD_range_map u _ k (by omega)).symm, hu⟩
+  have := hmin _ hx'
+  rw [flpObj_dot, flpObj_dot, getD_range_map u _ _ (by omega)] at this
+  exact this
+
+/-- the same for the factored-MDP LP with the joined final row: a certified flat optimum `w` extends to a solution of the
+    built LP, and every solution of the built LP has an objective ≥ the certified one -/
+theorem mdpLP_same_optimum (S A : List Nat) (ddn : List DNode) (γ : Rat) (h : List Basis) (g R : List BasisM)
+    (wf : MdpWF S A h g R)
+    (hbp : ∀ s a, Valid S s → Valid A a → ∀ k, k < h.length →
+      (g.map (·.at S A s a)).getD k 0 = expect S A ddn (fun s1 => (h.map (·.at S s1)).getD k 0) s a)
+    (c w y : List Rat) (hopt : optimalPairB h.length (mdpFlatRows S A ddn R γ h) c w y = true) :
+    (∃ u : Nat → Rat, (∀ k, k < h.length → u k = w.getD k 0) ∧ ∀ r ∈ (mdpGen true S A γ h g R).1, r.sat u) ∧
+    (∀ u : Nat → Rat, (∀ r ∈ (mdpGen true S A γ h g R).1, r.sat u) →
+      dotN h.length c w ≤ dotN h.length c ((List.range h.length).map u)) := by
+  obtain ⟨hfeas, _, hmin⟩ := optimalPair_sound _ _ _ w y hopt
+  refine ⟨(mdpLP_same_feasible S A ddn γ h g R wf w hbp).mpr hfeas, ?_⟩
+  intro u hu
+  exact hmin _ ((mdpLP_same_feasible S A ddn γ h g R wf ((List.range h.length).map u) hbp).mp
+    ⟨u, fun k hk => (getD_range_map u _ k hk).symm, hu⟩)
+
 end AITB.FLP
